@@ -170,14 +170,38 @@ def oracle_nonfinite(events):
 
 
 def c03_monitor(op_line, out_line):
-    """`checks/c03.py: monitor` applied to a PANTR run."""
+    """`checks/c03.py: monitor` applied to a PANTR run.
+
+    Two refinements for *diverging* runs (tiny `L_max`, adversarial steps of length 1e6·‖p‖ — iterates
+    of magnitude 1e80 and problem functions overflowing to inf / NaN), where that monitor's
+    assumptions do not hold:
+    * its finiteness / err_z verdicts presuppose finite problem functions (DESIGN §6 C03,
+      `x_out_finite_partial`): skipped when a problem oracle returned inf / NaN in the run;
+    * "x in C up to rounding of the projection: a few ulps *of the operands*": x̂ = x + clamp(−γ∇ψ,
+      lb − x, ub − x), so the operand is the final iterate's x (from the final callback), not the
+      returned x̂; the bound test is redone with `4 ulp(max(|x_i|, |x̂_i|, |bound_i|))`."""
     import c03
     if out_line.startswith('S exception'):
         return None
     m = c03.monitor(op_line, to_c03_view(out_line), {})
-    if m and 'not finite' in (m if isinstance(m, str) else m[0]) and \
-            oracle_nonfinite(parse_out(out_line)['events']):
+    if not m:
         return None
+    msg = m if isinstance(m, str) else m[0]
+    r = parse_out(out_line)
+    if oracle_nonfinite(r['events']) and ('not finite' in msg or 'err_z[' in msg or msg.startswith('y[')):
+        return None
+    if 'outside C' in msg and r['cbs']:
+        op = S.Op.parse(op_line)
+        lb, ub = op.vec('Clb'), op.vec('Cub')
+        xs, xh = r['cbs'][-1]['x'], r['out']['x']
+        ok = True
+        for i in range(len(xh)):
+            mags = [abs(v) for v in (xs[i], xh[i], lb[i], ub[i]) if math.isfinite(v)]
+            tol = 4 * math.ulp(max(mags + [0.0]))
+            if not (lb[i] - tol <= xh[i] <= ub[i] + tol):
+                ok = False
+        if ok:
+            return None
     return m
 
 
@@ -431,7 +455,7 @@ def selftest(argv=()):
     print('[loop_pantr] coverage', dict(sorted(cov.items())))
     print(f'[loop_pantr] total runs={total} mismatches={bad} provider-exceptions={exc} nonpure-skipped={nonp} '
           f'monitor hits={len(viol)}')
-    for m, o in viol[:3]:
+    for m, o in viol[:10]:
         print('MONITOR:', m, '\n   op:', o[:2000])
     return 0 if (ok and bad == 0 and not viol) else 1
 
